@@ -691,8 +691,12 @@ impl SessionManager {
         );
         gauge!(names::client::CONNECTIONS, self.nb_connections);
 
-        // do not be ready to accept right away, wait until we get back to 10% capacity
-        if !self.can_accept && self.nb_connections < self.max_connections * 90 / 100 {
+        // do not be ready to accept right away, wait until we get back to 10% capacity.
+        // The 90 % mark rounds down to 0 for max_connections < 2: without the
+        // floor of 1 no count is ever "below" it and a worker that reached its
+        // cap once would never accept again.
+        let resume_below = (self.max_connections * 90 / 100).max(1);
+        if !self.can_accept && self.nb_connections < resume_below {
             debug!(
                 "nb_connections = {}, max_connections = {}, starting to accept again",
                 self.nb_connections, self.max_connections
